@@ -102,12 +102,10 @@ theorem simp_loop2_skip (f0 : Nat) (path R : Bytes) (dt s se e ch cl : Int) (ab 
     intro hk hs fuel
     have hp := hs (lo + k) (by omega) (by omega)
     have e1 : ((lo + (k + 1) : Nat) : Int) - 1 = ((lo + k : Nat) : Int) := by omega
-    have h0 : ¬ (((lo + k : Nat) : Int) < 0) := by omega
+    have h0 : (((lo + k : Nat) : Int) ≥ 0) := by omega
     have h1 : lo + k ≤ R.length := by omega
     rw [show fuel + (k + 1) = (fuel + k) + 1 by omega]
-    simp only [e1, simplifyPath_loop2, cAt_nat, inb_nat, h0, h1]
-    bool_norm
-    simp only [sep_test', hp]
+    simp only [e1, simplifyPath_loop2, cAt_nat, inb_nat, h0, h1, Bool.and_assoc, nsep_test, hp]
     bool_norm
     exact ih (by omega) (fun i h1 h2 => hs i h1 (by omega)) fuel
 
@@ -115,13 +113,17 @@ theorem cstrEq_lit (R : Bytes) (n : Nat) (l : Bytes) : cstrEq R (n : Int) l 0 = 
   simp [cstrEq]
 
 open simplifyPath in
-/-- the look-back loop of the `..` branch decides and does what the model's `lookBack` says -/
+/-- the look-back loop of the `..` branch stops in front of the last component of the result; the comparison and the
+    `resize` that follow it decide and do what the model's `lookBack` says -/
 theorem simp_loop2 (f0 : Nat) (path R : Bytes) (dt s se e ch cl : Int) (ab : Bool) (r : Bytes) (fuel : Nat)
     (hf : R.length + 1 ≤ fuel) :
     ∃ P, simplifyPath_loop2 f0 fuel ⟨path, R, dt, s, se, e, ch, cl, ab, 0, (0 + (R.length : Int)) - 1, r⟩
-      = match lookBack R with
-        | some R' => some (Exit.jump 1, ⟨path, R', dt, s, se, e, ch, cl, ab, 0, P, r⟩)
-        | none => some (Exit.fall, ⟨path, R, dt, s, se, e, ch, cl, ab, 0, P, r⟩) := by
+        = some (Exit.fall, ⟨path, R, dt, s, se, e, ch, cl, ab, 0, P, r⟩) ∧
+      inb R (P + 1) = true ∧
+      (match lookBack R with
+        | some R' => cstrEq R (P + 1) [46, 46] 0 = false ∧
+            ((P < 0 ∧ resize R 0 = R') ∨ (¬ P < 0 ∧ 0 ≤ P - 0 ∧ P - 0 ≤ (R.length : Int) ∧ resize R (P - 0) = R'))
+        | none => cstrEq R (P + 1) [46, 46] 0 = true) := by
   unfold lookBack
   cases h : splitLast isSep R with
   | none =>
@@ -129,16 +131,20 @@ theorem simp_loop2 (f0 : Nat) (path R : Bytes) (dt s se e ch cl : Int) (ab : Boo
     obtain ⟨g, rfl⟩ : ∃ g, fuel = (g + 1) + R.length := ⟨fuel - 1 - R.length, by omega⟩
     have hpos : (0 + (R.length : Int)) - 1 = ((0 + R.length : Nat) : Int) - 1 := by omega
     rw [hpos, simp_loop2_skip _ _ _ _ _ _ _ _ _ _ _ 0 R.length (by omega) (all_hyp R _ hb) (g + 1)]
-    refine ⟨((0 : Nat) : Int) - 1, ?_⟩
-    have h0 : (((0 : Nat) : Int) - 1 < 0) := by omega
-    have e1 : ((0 : Nat) : Int) - 1 + 1 = ((0 : Nat) : Int) := by omega
-    simp only [simplifyPath_loop2, h0, e1, inb_nat, cstrEq_lit, List.drop_zero]
-    bool_norm
-    by_cases hd : R = dotdot
-    · have : R = [46, 46] := hd
-      simp [this, dotdot]
-    · have : ¬ (R = [46, 46]) := hd
-      simp [this, hd, resize]
+    refine ⟨((0 : Nat) : Int) - 1, ?_, ?_, ?_⟩
+    · have h0 : ¬ (((0 : Nat) : Int) - 1 ≥ 0) := by omega
+      simp only [simplifyPath_loop2, h0]
+      bool_norm
+    · simp [inb]
+    · have e1 : ((0 : Nat) : Int) - 1 + 1 = ((0 : Nat) : Int) := by omega
+      rw [e1, cstrEq_lit, List.drop_zero]
+      by_cases hd : R = dotdot
+      · have : R = [46, 46] := hd
+        simp [this, dotdot]
+      · have : ¬ (R = [46, 46]) := hd
+        simp only [hd, if_false, this, decide_false, true_and]
+        left
+        exact ⟨by omega, by simp [resize]⟩
   | some t =>
     obtain ⟨d, sp, b⟩ := t
     obtain ⟨h1, h2, h3⟩ := splitLast_some h
@@ -147,27 +153,25 @@ theorem simp_loop2 (f0 : Nat) (path R : Bytes) (dt s se e ch cl : Int) (ab : Boo
     obtain ⟨g, rfl⟩ : ∃ g, fuel = (g + 1) + b.length := ⟨fuel - 1 - b.length, by omega⟩
     have hpos : (0 + ((d ++ sp :: b).length : Int)) - 1 = (((d.length + 1) + b.length : Nat) : Int) - 1 := by omega
     rw [hpos, simp_loop2_skip _ _ _ _ _ _ _ _ _ _ _ (d.length + 1) b.length (by omega) (after_hyp d sp b _ h3) (g + 1)]
-    refine ⟨(d.length : Int), ?_⟩
     have e0 : ((d.length + 1 : Nat) : Int) - 1 = (d.length : Int) := by omega
-    have h0 : ¬ ((d.length : Int) < 0) := by omega
     have e1 : (d.length : Int) + 1 = ((d.length + 1 : Nat) : Int) := by omega
-    have i1 : d.length ≤ (d ++ sp :: b).length := by omega
-    have i2 : d.length + 1 ≤ (d ++ sp :: b).length := by omega
-    simp only [e0, simplifyPath_loop2, h0, e1, inb_nat, cAt_nat, cstrEq_lit, i1, i2, getD_append_at]
-    bool_norm
-    simp only [sep_test', h2]
-    bool_norm
-    have hdrop : (d ++ sp :: b).drop (d.length + 1) = b := by simp
-    rw [hdrop]
-    by_cases hd : b = dotdot
-    · have : b = [46, 46] := hd
-      simp [this, dotdot]
-    · have : ¬ (b = [46, 46]) := hd
-      have hr : resize (d ++ sp :: b) (d.length : Int) = d := by simp [resize]
-      simp [this, hd]
-      exact ⟨by omega, hr⟩
-
-
+    refine ⟨(d.length : Int), ?_, ?_, ?_⟩
+    · have h0 : ((d.length : Int) ≥ 0) := by omega
+      have i1 : d.length ≤ (d ++ sp :: b).length := by omega
+      have hns : (!isSep sp) = false := by simp [h2]
+      simp only [e0, simplifyPath_loop2, h0, inb_nat, cAt_nat, i1, getD_append_at, Bool.and_assoc, nsep_test, hns]
+      bool_norm
+    · rw [e1, inb_nat]; apply decide_eq_true; omega
+    · have hdrop : (d ++ sp :: b).drop (d.length + 1) = b := by simp
+      rw [e1, cstrEq_lit, hdrop]
+      by_cases hd : b = dotdot
+      · have : b = [46, 46] := hd
+        simp [this, dotdot]
+      · have : ¬ (b = [46, 46]) := hd
+        simp only [hd, if_false, this, decide_false, true_and]
+        right
+        refine ⟨by omega, by omega, by omega, ?_⟩
+        simp [resize]
 
 theorem span_split (p : Nat → Bool) : ∀ (l : Bytes), ∃ a b, l = a ++ b ∧ (∀ x ∈ a, p x = true) ∧
     (b = [] ∨ ∃ y t, b = y :: t ∧ p y = false) := by
@@ -385,24 +389,41 @@ theorem simp_iter (f0 : Nat) (pre seps c rest2 R : Bytes) (dt e ch cl : Int) (ab
       refine ⟨((pre.length + seps.length + c.length : Nat) : Int), ((pre.length + seps.length : Nat) : Int), ((pre.length + seps.length + c.length : Nat) : Int) - ((pre.length + seps.length : Nat) : Int), d2, p, ?_⟩
       cases ab <;> by_cases hr2e : rest2 = [] <;> simp [hr2e]
     · have hRi : R.isEmpty = false := by cases R with | nil => exact absurd rfl hRe | cons _ _ => rfl
-      obtain ⟨P, h2⟩ := simp_loop2 f0 path R dt ((pre.length + seps.length : Nat) : Int) (path.length : Int)
+      obtain ⟨P, h2, hin, hlk⟩ := simp_loop2 f0 path R dt ((pre.length + seps.length : Nat) : Int) (path.length : Int)
         ((pre.length + seps.length + c.length : Nat) : Int) ((pre.length + seps.length : Nat) : Int)
         (((pre.length + seps.length + c.length : Nat) : Int) - ((pre.length + seps.length : Nat) : Int)) ab r f0 hR
       simp only [hRi]
       bool_norm
       rw [h2]
+      simp only [hin]
+      bool_norm
       cases hlb : lookBack R with
       | none =>
+        rw [hlb] at hlk
         have hss : sstep ab R c = R ++ [47] ++ c := by simp [sstep, hcd, hRe, hlb, push]
-        simp only [hRi, hmkOk, hmk, hend, enext, hss]
+        simp only [hlk, hRi, hmkOk, hmk, hend, enext, hss]
         bool_norm
         refine ⟨((pre.length + seps.length + c.length : Nat) : Int), ((pre.length + seps.length : Nat) : Int), ((pre.length + seps.length + c.length : Nat) : Int) - ((pre.length + seps.length : Nat) : Int), 0, P, ?_⟩
         by_cases hr2e : rest2 = [] <;> simp [hr2e]
       | some R' =>
+        rw [hlb] at hlk
+        obtain ⟨hce, hrs⟩ := hlk
         have hss : sstep ab R c = R' := by simp [sstep, hcd, hRe, hlb]
-        simp only [hend, enext, hss]
-        refine ⟨((pre.length + seps.length + c.length : Nat) : Int), ((pre.length + seps.length : Nat) : Int), ((pre.length + seps.length + c.length : Nat) : Int) - ((pre.length + seps.length : Nat) : Int), 0, P, ?_⟩
-        by_cases hr2e : rest2 = [] <;> simp [hr2e]
+        simp only [hce, hss]
+        bool_norm
+        rcases hrs with ⟨hneg, hr0⟩ | ⟨hneg, g1, g2, hr1⟩
+        · have g3 : decide ((0 : Int) ≤ (R.length : Int)) = true := by apply decide_eq_true; omega
+          have g4 : decide ((0 : Int) ≤ (0 : Int)) = true := by decide
+          simp only [hneg, g3, g4, hr0, hend, enext]
+          bool_norm
+          refine ⟨((pre.length + seps.length + c.length : Nat) : Int), ((pre.length + seps.length : Nat) : Int), ((pre.length + seps.length + c.length : Nat) : Int) - ((pre.length + seps.length : Nat) : Int), 0, P, ?_⟩
+          by_cases hr2e : rest2 = [] <;> simp [hr2e]
+        · have g3 : decide ((0 : Int) ≤ P - 0) = true := by apply decide_eq_true; exact g1
+          have g4 : decide (P - 0 ≤ (R.length : Int)) = true := by apply decide_eq_true; exact g2
+          simp only [hneg, g3, g4, hr1, hend, enext]
+          bool_norm
+          refine ⟨((pre.length + seps.length + c.length : Nat) : Int), ((pre.length + seps.length : Nat) : Int), ((pre.length + seps.length + c.length : Nat) : Int) - ((pre.length + seps.length : Nat) : Int), 0, P, ?_⟩
+          by_cases hr2e : rest2 = [] <;> simp [hr2e]
   · have hcd' : decide (c = dotdot) = false := by apply decide_eq_false; exact hcd
     simp only [hcd']
     bool_norm
